@@ -36,7 +36,10 @@ func checkC09(c *Ctx) {
 	if sr := c.Named(ZapPath, "sinkRegistry"); c.Anchor("R9.1", "zap.sinkRegistry", sr != nil) {
 		guardedBy(c, "R9.1", sr, map[string]bool{"factories": true}, "mu", nil, func(Access) string { return "" })
 	}
-	for _, g := range []struct{ pkg, mu string; vars []string }{
+	for _, g := range []struct {
+		pkg, mu string
+		vars    []string
+	}{
 		{ZapPath, "_globalMu", []string{"_globalL", "_globalS"}},
 		{ZapPath, "_encoderMutex", []string{"_encoderNameToConstructor"}},
 	} {
@@ -375,25 +378,48 @@ func c9Blocking(c *Ctx) {
 	}
 }
 
-// c9EncoderPurity: EncodeEntry and Clone of both encoders do not store through the receiver.
+// c9EncoderPurity: EncodeEntry and Clone of both encoders do not modify the
+// shared encoder they are called on (directly, or through any method of the
+// encoder they call on it).
 func c9EncoderPurity(c *Ctx, rule string) {
-	for _, m := range []struct{ t, m string }{{"jsonEncoder", "EncodeEntry"}, {"jsonEncoder", "Clone"}, {"jsonEncoder", "clone"}, {"consoleEncoder", "EncodeEntry"}, {"consoleEncoder", "Clone"}, {"consoleEncoder", "writeContext"}} {
+	for _, m := range []struct{ t, m string }{{"jsonEncoder", "EncodeEntry"}, {"jsonEncoder", "Clone"}, {"consoleEncoder", "EncodeEntry"}, {"consoleEncoder", "Clone"}} {
 		fn := c.Method(CorePath, m.t, m.m)
 		if !c.Anchor(rule, "zapcore."+m.t+"."+m.m, fn != nil) {
 			continue
 		}
-		recv := fn.Params[0]
-		var bad []string
-		AllInstrs(fn, func(i ssa.Instruction) {
+		bad := encoderTouches(fn, map[*ssa.Function]bool{}, 0)
+		c.Check(len(bad) == 0, rule, fn.String(), "receiver-untouched", fn.Pos(), "the shared encoder is only read; all mutation happens on a per-call clone: %v", bad)
+	}
+}
+
+// encoderTouches lists the ways fn modifies the encoder it is called on.
+func encoderTouches(fn *ssa.Function, seen map[*ssa.Function]bool, depth int) []string {
+	if seen[fn] || depth > 5 || len(fn.Params) == 0 {
+		return nil
+	}
+	seen[fn] = true
+	recv := fn.Params[0]
+	isRecv := func(v ssa.Value) bool {
+		return mayBe(v, func(x ssa.Value) bool {
+			dd := Desc(x)
+			return dd == recv.Name() || dd == recv.Name()+".jsonEncoder"
+		})
+	}
+	var bad []string
+	for _, f := range WithClosures(fn) {
+		AllInstrs(f, func(i ssa.Instruction) {
 			switch x := i.(type) {
 			case *ssa.Store:
-				if Root(x.Addr) == ssa.Value(recv) {
-					bad = append(bad, "store to "+Desc(x.Addr))
+				r := Root(x.Addr)
+				if r == ssa.Value(recv) {
+					bad = append(bad, fn.Name()+": store to "+Desc(x.Addr))
+				}
+				if fv, ok := r.(*ssa.FreeVar); ok && fv.Name() == recv.Name() {
+					bad = append(bad, fn.Name()+": store to "+Desc(x.Addr)+" (closure)")
 				}
 			case ssa.CallInstruction:
-				// mutating buffer methods on the receiver's own buffers
-				f := CalleeFunc(x)
-				if f == nil {
+				cf := CalleeFunc(x)
+				if cf == nil {
 					return
 				}
 				args := Args(x)
@@ -401,27 +427,23 @@ func c9EncoderPurity(c *Ctx, rule string) {
 					return
 				}
 				d := Desc(args[0])
-				if (d == recv.Name()+".buf" || d == recv.Name()+".jsonEncoder.buf" || d == recv.Name()+".reflectBuf") && f.Pkg() != nil && f.Pkg().Path() == "go.uber.org/zap/buffer" {
-					switch f.Name() {
+				if (d == recv.Name()+".buf" || d == recv.Name()+".jsonEncoder.buf" || d == recv.Name()+".reflectBuf" || d == recv.Name()+".jsonEncoder.reflectBuf") && cf.Pkg() != nil && cf.Pkg().Path() == "go.uber.org/zap/buffer" {
+					switch cf.Name() {
 					case "Len", "Bytes", "Cap", "String":
 					default:
-						bad = append(bad, f.Name()+" on "+d)
+						bad = append(bad, fn.Name()+": "+cf.Name()+" on "+d)
 					}
 				}
-				// methods of the receiver itself that mutate it
-				if mayBe(args[0], func(v ssa.Value) bool { dd := Desc(v); return dd == recv.Name() || dd == recv.Name()+".jsonEncoder" }) {
-					switch f.Name() {
-					case "clone", "Clone", "EncodeEntry", "writeContext", "addSeparatorIfNecessary":
-					default:
-						if rn := f.Type().(*types.Signature).Recv(); rn != nil && strings.HasSuffix(TypeName(rn.Type()), "Encoder") {
-							bad = append(bad, "calls mutating method "+f.Name()+" on a value that may be the shared receiver ("+d+")")
-						}
+				// a method of the encoder called on the shared receiver: it must itself leave it untouched
+				if isRecv(args[0]) {
+					if callee := StaticCallee(x); callee != nil && curProgRoot(callee) && callee.Signature.Recv() != nil {
+						bad = append(bad, encoderTouches(callee, seen, depth+1)...)
 					}
 				}
 			}
 		})
-		c.Check(len(bad) == 0, rule, fn.String(), "receiver-untouched", fn.Pos(), "the shared encoder is only read; all mutation happens on a per-call clone: %v", bad)
 	}
+	return bad
 }
 
 // mayBe: can v (through phis and multi-store locals) be a value satisfying pred?
